@@ -37,7 +37,7 @@ type recCtx struct {
 	id string
 }
 
-func (c recCtx) ID() string { return c.id }
+func (c *recCtx) ID() string { return c.id }
 
 // replayStaticRTP drives the real track with 0..4 recording bindings, writes a packet
 // (with and without Packet.PaddingSize), unbinds each binding in turn and checks the
@@ -53,7 +53,7 @@ func replayStaticRTP(t *testing.T, r *replayFile) (bool, string) {
 				}
 				removed := -1
 				if rm >= 0 {
-					if err := tr.Unbind(recCtx{id: fmt.Sprint("b", rm)}); err != nil {
+					if err := tr.Unbind(&recCtx{id: fmt.Sprint("b", rm)}); err != nil {
 						return true, fmt.Sprintf("Unbind of bound id b%d failed: %v", rm, err)
 					}
 					removed = rm
